@@ -131,6 +131,16 @@ def run_real(desc):
             for a, _ in flags:
                 a.blocking = True
             gu.create_grid_and_mask(viewer, grid, R, agents)
+            # ... and a call that RAISES part-way (round 6): the dictionary ends with an agent that has never been
+            # placed (no position yet), after every blocker was processed; what that call left behind anywhere
+            # (module-level scratch, caches) must not reach the next, legal call
+            ghost = GridWorldAgent(id="ghost", encoding=3, blocking=True)
+            bad = dict(agents)
+            bad["ghost"] = ghost
+            try:
+                gu.create_grid_and_mask(viewer, grid, R, bad)
+            except Exception:  # noqa: BLE001
+                pass
         except Exception:  # noqa: BLE001
             pass
         finally:
